@@ -3,7 +3,7 @@ import re
 
 from mirlib import op_place, AnchorMissing, describe_call, describe_operand, describe_place, describe_rvalue, dom_guards, guards, _suffix_match
 from rules import uplinks
-from rules.common import ty_of, aggregates, callers_by_name, owner_def, value_origins, where
+from rules.common import guards_with_sources, ty_of, aggregates, callers_by_name, owner_def, value_origins, where
 
 META = {
     "explanation": (
@@ -410,6 +410,27 @@ def run(ctx):
     with ctx.rule("C14.R15", "T2", "the sender lent out of Uplinks.writer always comes back: as a WriteTask or into the slot (shared with C01.R7)", floor=4) as r:
         # a sender that is dropped leaves the remote attached and linked while nothing is ever written to it again (F61)
         uplinks.writer_token(r, ctx)
+
+    with ctx.rule("C14.R17", "T2", "CommandOutput::write hands the buffer of every dirty target to the channel writer before it forgets which targets are dirty", floor=1) as r:
+        # `dirty` lists the targets whose lane buffers hold commands that were appended while the channel writer was away. write() either walks the
+        # whole list (drain) or - the fast path - swaps in the buffer of the first entry and clears the list; the latter is everything only when the
+        # list has exactly one entry. Anything else strands the other targets' commands in buffers nobody will look at again.
+        co = [b for b in rt.all_bodies() if b.meta.get("name") == "write" and (b.meta.get("self_adt") or "").endswith("external_links::CommandOutput")]
+        if len(co) != 1:
+            raise AnchorMissing("CommandOutput::write (found %d)" % len(co))
+        co = ctx.saw(co[0])
+        clears = [c for c in co.calls if c.name in ("clear", "truncate") and c.args and describe_operand(co, c.args[0]).endswith("dirty")]
+        drains = [c for c in co.calls if c.name in ("drain", "into_iter", "iter") and c.args and "dirty" in describe_operand(co, c.args[0])]
+        if not clears and not drains:
+            raise AnchorMissing("CommandOutput::write: where `dirty` is emptied")
+        for k_, c in enumerate(clears):
+            g = guards_with_sources(co, c.block)
+            one = any(re.match(r"^Eq\(", d) and "len(" in src and "dirty" in src and re.search(r"(^|[ ,(])1([ ,)]|$)", d) and l == "true" for d, l, _, src in g)
+            r.check(one, "CommandOutput/write/clear-of-dirty#%d/only-when-it-has-one-entry" % k_, c.loc(), "the list is cleared without being walked only when it has exactly one entry",
+                    "CommandOutput::write clears `dirty` after handing over the first entry only, under a test that does not say the list has one entry: with targets queued as A, B, A the commands "
+                    "for B stay in B's lane buffer, no longer marked dirty - they are never sent (and are destroyed when the output times out)")
+        if not clears:
+            r.ok("CommandOutput/write/dirty-walked", where(co), "every entry of `dirty` is walked (no fast path)")
 
     with ctx.rule("C14.R16", "T2", "a lane event is handed to every remote linked to the lane, whether or not an earlier remote's writer is busy", floor=2) as r:
         _rt = ctx.crate("swimos_runtime")
